@@ -15,3 +15,34 @@ Theorem C13_comment_lines_prefixed : forall v comb, mem cLF comb = false ->
     split_on cLF body = map (fun cl => comb ++ cSP :: cl) (split_on cLF v).
 Proof. exact comment_lines. Qed.
 Print Assumptions C13_comment_lines_prefixed.
+
+(* ---- notes normalise idempotently ---- *)
+From PyDBML Require Import PreformatFacts.
+
+(* removing leading/trailing blank lines is idempotent for every text whatsoever *)
+Theorem C13_strip_empty_lines_idempotent : forall s, strip_empty_lines (strip_empty_lines s) = strip_empty_lines s.
+Proof. exact strip_empty_lines_idem. Qed.
+Print Assumptions C13_strip_empty_lines_idempotent.
+
+(* the stored form of a note is a fixed point of the normalisation, for every text whose whitespace
+   characters are blank, TAB and LF *)
+Theorem C13_normalisation_idempotent :
+  forall t, ws_ok t -> forall v, preformat t = Ok v -> preformat v = Ok v.
+Proof. exact preformat_idempotent. Qed.
+Print Assumptions C13_normalisation_idempotent.
+
+(* without the hypothesis the statement is false (defect D22): a carriage return on an otherwise empty line *)
+Definition C13_idempotent_full : Prop := forall t v, preformat t = Ok v -> preformat v = Ok v.
+Theorem C13_idempotent_full_refuted : ~ C13_idempotent_full.
+Proof.
+  intro H. specialize (H [cSP; 97%N; cLF; cCR] [97%N; cLF]).
+  assert (E : preformat [cSP; 97%N; cLF; cCR] = Ok [97%N; cLF]) by (vm_compute; reflexivity).
+  specialize (H E). vm_compute in H. discriminate H.
+Qed.
+Print Assumptions C13_idempotent_full_refuted.
+
+Example C13_hypothesis_is_satisfiable : ws_ok ([cSP; cSP; 97%N; cLF; cSP; 98%N]).
+Proof.
+  intros c Hc Hs. cbn in Hc.
+  destruct Hc as [<-|[<-|[<-|[<-|[<-|[<-|[]]]]]]]; first [ left; reflexivity | right; reflexivity | discriminate Hs ].
+Qed.
